@@ -11,27 +11,41 @@ namespace Hive.C12a.Heap
 /-! ## the comparison -/
 
 /-- `Less` is irreflexive. -/
-theorem lessK_irrefl (d : Bool) (a : Int) : lessK d a a = false := by
-  cases d <;> simp [lessK]
+theorem lessK_irrefl (d : Cmp) (a : Int) : lessK d a a = false := by
+  have := d.anti a a
+  simp only [lessK, decide_eq_false_iff_not]; omega
 
 /-- `Less` is asymmetric. -/
-theorem lessK_asymm (d : Bool) (a b : Int) (h : lessK d a b = true) : lessK d b a = false := by
-  cases d <;> simp [lessK] at h ⊢ <;> omega
+theorem lessK_asymm (d : Cmp) (a b : Int) (h : lessK d a b = true) : lessK d b a = false := by
+  have := d.anti a b
+  simp only [lessK, decide_eq_true_eq, decide_eq_false_iff_not] at h ⊢; omega
 
 /-- "not less" (`≥` in the queue's order) is transitive. -/
-theorem lessK_trans_false (d : Bool) (a b c : Int) (h1 : lessK d a b = false)
+theorem lessK_trans_false (d : Cmp) (a b c : Int) (h1 : lessK d a b = false)
     (h2 : lessK d b c = false) : lessK d a c = false := by
-  cases d <;> simp [lessK] at h1 h2 ⊢ <;> omega
+  have e1 := d.anti a b
+  have e2 := d.anti b c
+  have e3 := d.anti a c
+  have e4 := d.anti c a
+  have t := d.trans c b a
+  simp only [lessK, decide_eq_false_iff_not] at h1 h2 ⊢
+  have hcb : d.f c b ≤ 0 := by omega
+  have hba : d.f b a ≤ 0 := by omega
+  have := t hcb hba
+  omega
 
 /-- "not less" is total. -/
-theorem lessK_total (d : Bool) (a b : Int) : lessK d a b = false ∨ lessK d b a = false := by
-  cases d <;> simp [lessK] <;> omega
+theorem lessK_total (d : Cmp) (a b : Int) : lessK d a b = false ∨ lessK d b a = false := by
+  have := d.anti a b
+  simp only [lessK, decide_eq_false_iff_not]; omega
 
-theorem leK_iff (d : Bool) (a b : Int) : leK d a b = true ↔ lessK d b a = false := by
-  simp [leK]
+theorem leK_iff (d : Cmp) (a b : Int) : leK d a b = true ↔ lessK d b a = false := by
+  have := d.anti b a
+  simp only [leK, lessK, decide_eq_true_eq, decide_eq_false_iff_not]; omega
 
-theorem leK_false_iff (d : Bool) (a b : Int) : leK d a b = false ↔ lessK d b a = true := by
-  simp [leK]
+theorem leK_false_iff (d : Cmp) (a b : Int) : leK d a b = false ↔ lessK d b a = true := by
+  have := d.anti b a
+  simp only [leK, lessK, decide_eq_true_eq, decide_eq_false_iff_not]; omega
 
 /-! ## `at` -/
 
@@ -53,7 +67,7 @@ theorem mem_iff_at (s : St) (e : Elem) : e ∈ s.arr ↔ ∃ i, i < s.arr.length
 
 /-! ## `swap` -/
 
-@[simp] theorem swap_desc (s : St) (i j) : (swap s i j).desc = s.desc := rfl
+@[simp] theorem swap_cmp (s : St) (i j) : (swap s i j).cmp = s.cmp := rfl
 @[simp] theorem swap_length (s : St) (i j) : (swap s i j).arr.length = s.arr.length := by
   simp [swap]
 @[simp] theorem swap_idx_length (s : St) (i j) : (swap s i j).idx.length = s.idx.length := by
@@ -75,7 +89,7 @@ theorem idx_swap (s : St) (i j h : Nat) (d : Int) :
 
 /-! ## `up` -/
 
-@[simp] theorem up_desc (s : St) (j) : (up s j).desc = s.desc := by
+@[simp] theorem up_cmp (s : St) (j) : (up s j).cmp = s.cmp := by
   fun_induction up s j <;> simp_all
 @[simp] theorem up_length (s : St) (j) : (up s j).arr.length = s.arr.length := by
   fun_induction up s j <;> simp_all
@@ -94,7 +108,7 @@ theorem up_at_gt (s : St) (j k : Nat) (hj : j < s.arr.length) (hk : j < k) :
 
 /-! ## `down` -/
 
-@[simp] theorem down_desc (s : St) (i n) : (down s i n).1.desc = s.desc := by
+@[simp] theorem down_cmp (s : St) (i n) : (down s i n).1.cmp = s.cmp := by
   fun_induction down s i n <;> simp_all
 @[simp] theorem down_length (s : St) (i n) : (down s i n).1.arr.length = s.arr.length := by
   fun_induction down s i n <;> simp_all
@@ -131,7 +145,7 @@ theorem down_eq_of_not_moved (s : St) (i n) (h : (down s i n).2 = i) : (down s i
 
 /-! ## `pushLast`, `alloc`, `popLast` -/
 
-@[simp] theorem pushLast_desc (s : St) (e) : (pushLast s e).desc = s.desc := rfl
+@[simp] theorem pushLast_cmp (s : St) (e) : (pushLast s e).cmp = s.cmp := rfl
 @[simp] theorem pushLast_arr (s : St) (e) : (pushLast s e).arr = s.arr ++ [e] := rfl
 @[simp] theorem pushLast_idx_length (s : St) (e) : (pushLast s e).idx.length = s.idx.length := by
   simp [pushLast]
@@ -148,7 +162,7 @@ theorem idx_pushLast (s : St) (e h) (d : Int) :
   simp only [pushLast, List.getD_eq_getElem?_getD, List.getElem?_set]
   grind
 
-@[simp] theorem alloc_desc (s : St) (p v) : (alloc s p v).1.desc = s.desc := rfl
+@[simp] theorem alloc_cmp (s : St) (p v) : (alloc s p v).1.cmp = s.cmp := rfl
 @[simp] theorem alloc_arr (s : St) (p v) : (alloc s p v).1.arr = s.arr := rfl
 @[simp] theorem alloc_at (s : St) (p v k) : (alloc s p v).1.at k = s.at k := rfl
 @[simp] theorem alloc_idx_length (s : St) (p v) :
@@ -162,7 +176,7 @@ theorem idx_alloc (s : St) (p v h) (d : Int) :
   simp only [alloc, List.getD_eq_getElem?_getD, List.getElem?_append]
   grind
 
-@[simp] theorem popLast_desc (s : St) : (popLast s).1.desc = s.desc := rfl
+@[simp] theorem popLast_cmp (s : St) : (popLast s).1.cmp = s.cmp := rfl
 @[simp] theorem popLast_arr (s : St) : (popLast s).1.arr = s.arr.take (s.arr.length - 1) := rfl
 @[simp] theorem popLast_idx_length (s : St) : (popLast s).1.idx.length = s.idx.length := by
   simp [popLast]
